@@ -255,10 +255,12 @@ def c_inline_scope(c, fault):
 
 # ---- foreach expansion preserves the lowering of every statement / expression kind --------------------------------------------
 EXPANSION_KINDS = ("bin_elem_idx", "partselect_elem", "partselect_field_of_elem", "unary", "in_range", "unique_elem_scalar",
-                   "unique_two_fields", "soft", "implies", "if_else", "nested_bin", "elem_field_vs_scalar", "dynref_of_elem")
+                   "unique_two_fields", "soft", "implies", "if_else", "nested_bin", "elem_field_vs_scalar", "dynref_of_elem",
+                   "arith_with_idx", "dist_weight_by_index")
+_OBJ_KINDS = ("partselect_field_of_elem", "unique_two_fields", "elem_field_vs_scalar", "dynref_of_elem")
 
 
-@contract("array_constraint_builder.expansion_preserves_lowering", ["C04", "C01", "C08", "C06"],
+@contract("array_constraint_builder.expansion_preserves_lowering", ["C04", "C01", "C08", "C06", "C15"],
           ["vsc.visitors.array_constraint_builder.ArrayConstraintBuilder.visit_constraint_foreach",
            "vsc.visitors.constraint_copy_builder.ConstraintCopyBuilder.visit_expr_partselect",
            "vsc.visitors.constraint_copy_builder.ConstraintCopyBuilder.visit_constraint_unique",
@@ -269,16 +271,20 @@ EXPANSION_KINDS = ("bin_elem_idx", "partselect_elem", "partselect_field_of_elem"
            "vsc.visitors.constraint_copy_builder.ConstraintCopyBuilder.visit_constraint_implies",
            "vsc.visitors.constraint_copy_builder.ConstraintCopyBuilder.visit_constraint_if_else",
            "vsc.visitors.constraint_copy_builder.ConstraintCopyBuilder.visit_expr_indexed_dynref",
-           "vsc.visitors.foreach_ref_expander.ForeachRefExpander.expand"],
-          lambda tier, seed: [(k, n, objs) for k in EXPANSION_KINDS for n in (1, 3) for objs in (False, True)
-                              if objs == (k in ("partselect_field_of_elem", "unique_two_fields", "elem_field_vs_scalar", "dynref_of_elem"))],
+           "vsc.visitors.constraint_copy_builder.ConstraintCopyBuilder.visit_constraint_dist",
+           "vsc.visitors.constraint_copy_builder.ConstraintCopyBuilder.visit_dist_weight",
+           "vsc.visitors.foreach_ref_expander.ForeachRefExpander.expand",
+           "vsc.visitors.foreach_ref_expander.ForeachRefExpander.visit_expr_fieldref"],
+          lambda tier, seed: [(k, n, k in _OBJ_KINDS, sg) for k in EXPANSION_KINDS for n in (1, 3)
+                              for sg in ((False,) if k in _OBJ_KINDS or k == "dist_weight_by_index" else (False, True))],
           replay="none",
-          note="foreach expansion: 13 statement / expression kinds that mention the loop index or the element (comparison with "
-               "the index, part-select of the element / of a field of the element, ~, in, unique, soft, implies, if/else, nested "
-               "arithmetic, element field, dynamic constraint of the element) over scalar lists and object lists of 1 and 3 "
-               "elements. Obligation: the expansion has one copy of the body per element, and the copy for element j lowers to "
-               "exactly the term the original body lowers to with the index set to j (ghost solver, all values)")
-def c_expansion(c, kind, n, objs):
+          note="foreach expansion: 15 statement / expression kinds that mention the loop index or the element (comparison and "
+               "arithmetic with the index, part-select of the element / of a field of the element, ~, in, unique, soft, implies, "
+               "if/else, nested arithmetic, element field, dynamic constraint of the element, dist with an index-dependent weight) "
+               "over signed and unsigned scalar lists and object lists of 1 and 3 elements. Obligation: the expansion has one copy "
+               "of the body per element, and the copy for element j lowers to exactly the term of the REFERENCE body for j, which "
+               "is written with a direct reference to element j and the index as the integer j (R-EXPR: a signed 32-bit literal)")
+def c_expansion(c, kind, n, objs, signed):
     from vsc.model.field_array_model import FieldArrayModel
     from vsc.model.field_scalar_model import FieldScalarModel
     from vsc.model.field_composite_model import FieldCompositeModel
@@ -290,6 +296,8 @@ def c_expansion(c, kind, n, objs):
     from vsc.model.constraint_if_else_model import ConstraintIfElseModel
     from vsc.model.constraint_scope_model import ConstraintScopeModel
     from vsc.model.constraint_unique_model import ConstraintUniqueModel
+    from vsc.model.constraint_dist_model import ConstraintDistModel
+    from vsc.model.dist_weight_expr_model import DistWeightExprModel
     from vsc.model.constraint_override_model import ConstraintOverrideModel
     from vsc.model.expr_bin_model import ExprBinModel
     from vsc.model.expr_unary_model import ExprUnaryModel
@@ -303,12 +311,13 @@ def c_expansion(c, kind, n, objs):
     from vsc.model.expr_array_subscript_model import ExprArraySubscriptModel
     from vsc.model.expr_indexed_field_ref_model import ExprIndexedFieldRefModel
     from vsc.model.expr_indexed_dynref_model import ExprIndexedDynRefModel
+    from vsc.model.expr_dynref_model import ExprDynRefModel
     from vsc.model.bin_expr_type import BinExprType
     from vsc.visitors.array_constraint_builder import ArrayConstraintBuilder
     from vsc.visitors.variable_bound_visitor import VariableBoundVisitor
     from pyvc.ghost_btor import GhostBoolector
     root = FieldCompositeModel("o", True)
-    a = root.add_field(FieldScalarModel("a", 8, False, True))
+    a = root.add_field(FieldScalarModel("a", 8, signed, True))
     if objs:
         arr = root.add_field(FieldArrayModel("l", None, False, None, -1, -1, True, False))
         for k in range(n):
@@ -323,72 +332,82 @@ def c_expansion(c, kind, n, objs):
     else:
         class T:
             width = 8
-        arr = root.add_field(FieldArrayModel("l", T(), True, None, 8, False, True, False))
+        arr = root.add_field(FieldArrayModel("l", T(), True, None, 8, signed, True, False))
         for _ in range(n):
             arr.add_field()
+
+    class TW:
+        width = 8
+    wl = root.add_field(FieldArrayModel("wl", TW(), True, None, 8, False, False, False))      # non-random weights, one per element
+    for k in range(n):
+        wl.add_field().set_val([3, 0, 5][k])
     fe = ConstraintForeachModel(ExprFieldRefModel(arr))
-    I = ExprFieldRefModel(fe.index)
-    EL = ExprArraySubscriptModel(ExprFieldRefModel(arr), I)          # l[i]
     A = ExprFieldRefModel(a)
 
     def lit(v, w=32):
         return ExprLiteralModel(v, False, w)
 
-    def fld(j):                                                        # l[i].<field j>
-        return ExprIndexedFieldRefModel(EL, [j])
-    if kind == "bin_elem_idx":
-        body = [ConstraintExprModel(ExprBinModel(EL, BinExprType.Gt, I))]
-    elif kind == "partselect_elem":
-        body = [ConstraintExprModel(ExprBinModel(ExprPartselectModel(EL, lit(7), lit(4)), BinExprType.Eq, lit(5)))]
-    elif kind == "partselect_field_of_elem":
-        body = [ConstraintExprModel(ExprBinModel(ExprPartselectModel(fld(0), lit(3), lit(0)), BinExprType.Eq, lit(5)))]
-    elif kind == "unary":
-        body = [ConstraintExprModel(ExprUnaryModel(UnaryExprType.Not, ExprBinModel(EL, BinExprType.Eq, I)))]
-    elif kind == "in_range":
-        body = [ConstraintExprModel(ExprInModel(EL, ExprRangelistModel([ExprRangeModel(I, lit(9)), lit(200)])))]
-    elif kind == "unique_elem_scalar":
-        body = [ConstraintUniqueModel([EL, A])]
-    elif kind == "unique_two_fields":
-        body = [ConstraintUniqueModel([fld(0), fld(1)])]
-    elif kind == "soft":
-        body = [ConstraintSoftModel(ExprBinModel(EL, BinExprType.Eq, I))]
-    elif kind == "implies":
-        body = [ConstraintImpliesModel(ExprBinModel(A, BinExprType.Eq, I), [ConstraintExprModel(ExprBinModel(EL, BinExprType.Lt, lit(7)))])]
-    elif kind == "if_else":
-        body = [ConstraintIfElseModel(ExprBinModel(A, BinExprType.Gt, I),
-                                      ConstraintScopeModel([ConstraintExprModel(ExprBinModel(EL, BinExprType.Lt, lit(7)))]),
-                                      ConstraintScopeModel([ConstraintExprModel(ExprBinModel(EL, BinExprType.Gt, lit(70)))]))]
-    elif kind == "nested_bin":
-        body = [ConstraintExprModel(ExprBinModel(ExprBinModel(EL, BinExprType.Add, ExprBinModel(I, BinExprType.Mul, lit(2))), BinExprType.Le, A))]
-    elif kind == "elem_field_vs_scalar":
-        body = [ConstraintExprModel(ExprBinModel(fld(1), BinExprType.Ne, ExprBinModel(A, BinExprType.Add, I)))]
-    else:
-        body = [ConstraintExprModel(ExprIndexedDynRefModel(EL, 0))]
+    def mk_body(I, EL, fld, dynref, W):
+        """the foreach body as a function of: the index expression, the element, its fields, its dynamic constraint, its weight"""
+        if kind == "bin_elem_idx":
+            return [ConstraintExprModel(ExprBinModel(EL, BinExprType.Gt, I))]
+        if kind == "arith_with_idx":
+            return [ConstraintExprModel(ExprBinModel(ExprBinModel(EL, BinExprType.Add, lit(1)), BinExprType.Gt, ExprBinModel(I, BinExprType.Sub, A)))]
+        if kind == "partselect_elem":
+            return [ConstraintExprModel(ExprBinModel(ExprPartselectModel(EL, lit(7), lit(4)), BinExprType.Eq, lit(5)))]
+        if kind == "partselect_field_of_elem":
+            return [ConstraintExprModel(ExprBinModel(ExprPartselectModel(fld(0), lit(3), lit(0)), BinExprType.Eq, lit(5)))]
+        if kind == "unary":
+            return [ConstraintExprModel(ExprUnaryModel(UnaryExprType.Not, ExprBinModel(EL, BinExprType.Eq, I)))]
+        if kind == "in_range":
+            return [ConstraintExprModel(ExprInModel(EL, ExprRangelistModel([ExprRangeModel(I, lit(9)), lit(200)])))]
+        if kind == "unique_elem_scalar":
+            return [ConstraintUniqueModel([EL, A])]
+        if kind == "unique_two_fields":
+            return [ConstraintUniqueModel([fld(0), fld(1)])]
+        if kind == "soft":
+            return [ConstraintSoftModel(ExprBinModel(EL, BinExprType.Eq, I))]
+        if kind == "implies":
+            return [ConstraintImpliesModel(ExprBinModel(A, BinExprType.Eq, I), [ConstraintExprModel(ExprBinModel(EL, BinExprType.Lt, lit(7)))])]
+        if kind == "if_else":
+            return [ConstraintIfElseModel(ExprBinModel(A, BinExprType.Gt, I),
+                                          ConstraintScopeModel([ConstraintExprModel(ExprBinModel(EL, BinExprType.Lt, lit(7)))]),
+                                          ConstraintScopeModel([ConstraintExprModel(ExprBinModel(EL, BinExprType.Gt, lit(70)))]))]
+        if kind == "nested_bin":
+            return [ConstraintExprModel(ExprBinModel(ExprBinModel(EL, BinExprType.Add, ExprBinModel(I, BinExprType.Mul, lit(2))), BinExprType.Le, A))]
+        if kind == "elem_field_vs_scalar":
+            return [ConstraintExprModel(ExprBinModel(fld(1), BinExprType.Ne, ExprBinModel(A, BinExprType.Add, I)))]
+        if kind == "dist_weight_by_index":
+            return [ConstraintDistModel(EL, [DistWeightExprModel(lit(1), None, W), DistWeightExprModel(lit(2), lit(4), lit(1))])]
+        return [ConstraintExprModel(dynref)]
+    I = ExprFieldRefModel(fe.index)
+    EL = ExprArraySubscriptModel(ExprFieldRefModel(arr), I)
+    body = mk_body(I, EL, lambda j_: ExprIndexedFieldRefModel(EL, [j_]), ExprIndexedDynRefModel(EL, 0) if objs else None,
+                   ExprArraySubscriptModel(ExprFieldRefModel(wl), I))
     fe.constraint_l.extend(body)
     blk = ConstraintBlockModel("c", [fe])
     root.add_constraint(blk)
     root.set_used_rand(True, 0)
     bt = GhostBoolector()
-
-    def build_all_fields():
-        a.build(bt)
-        for e in arr.field_l:
-            if objs:
-                for f in e.field_l:
-                    f.build(bt)
-            else:
-                e.build(bt)
-    build_all_fields()
+    a.build(bt)
+    for e in arr.field_l:
+        if objs:
+            for f in e.field_l:
+                f.build(bt)
+        else:
+            e.build(bt)
+    for f in wl.field_l:
+        f.is_used_rand = False
+        f.build(bt)
     soft = kind == "soft"
-    # the original body, lowered with the index set to j
-    want = []
+    # the reference: the same body written for element j directly, the index being the integer j
+    refs = []
     for j in range(n):
-        fe.index.set_val(j)
-        fe.index.is_used_rand = False
-        fe.index.dispose()
-        fe.index.build(bt)               # the index is a constant of the iteration
-        want.append([st.build(bt, soft) if soft else st.build(bt) for st in body])
-    fe.index.dispose()
+        ej = arr.field_l[j]
+        refs.append(mk_body(ExprLiteralModel(j, True, 32), ExprFieldRefModel(ej),
+                            (lambda ej_: (lambda k_: ExprFieldRefModel(ej_.field_l[k_])))(ej),
+                            ExprDynRefModel(ej.constraint_dynamic_model_l[0]) if objs else None,
+                            ExprFieldRefModel(wl.field_l[j])))
     bv = VariableBoundVisitor()
     bv.process([root], [], False)
     ArrayConstraintBuilder.build(root, bv.bound_m)
@@ -398,11 +417,21 @@ def c_expansion(c, kind, n, objs):
     c.check("the expansion holds one copy of the body per element of the list", len(exp) == n * len(body), info="%d statements" % len(exp))
     fe.index.set_val(n + 5)            # a stale index must not matter to the copies
     for j in range(n):
-        for s, st in enumerate(body):
-            cp = exp[j * len(body) + s]
-            got = cp.build(bt, soft) if soft else cp.build(bt)
-            w = want[j][s]
-            c.check("the copy for element j lowers to the term the body lowers to with the index set to j (all values)",
-                    got is not None and w is not None and got.width == w.width and got.term == w.term,
-                    info="kind=%s j=%d copy=%s" % (kind, j, type(cp).__name__))
+        for s_, st in enumerate(body):
+            cp = exp[j * len(body) + s_]
+            rf = refs[j][s_]
             c.check("the copy is a statement of the same kind as the original", type(cp) is type(st))
+            if kind == "dist_weight_by_index":
+                ok = (isinstance(cp, ConstraintDistModel) and cp.lhs.build(bt).term is rf.lhs.build(bt).term and len(cp.weights) == 2
+                      and int(cp.weights[0].weight.val()) == int(rf.weights[0].weight.val())
+                      and int(cp.weights[0].rng_lhs.val()) == 1 and cp.weights[0].rng_rhs is None
+                      and int(cp.weights[1].rng_lhs.val()) == 2 and int(cp.weights[1].rng_rhs.val()) == 4 and int(cp.weights[1].weight.val()) == 1)
+                c.check("C15: the dist copy for element j is on element j, with the weights the index selects for j", ok,
+                        info="j=%d weight=%r want %r" % (j, cp.weights[0].weight.val() if isinstance(cp, ConstraintDistModel) else None,
+                                                         rf.weights[0].weight.val()))
+                continue
+            got = cp.build(bt, soft) if soft else cp.build(bt)
+            w = rf.build(bt, soft) if soft else rf.build(bt)
+            c.check("the copy for element j lowers to the term of the reference body for j (direct element reference, index as "
+                    "the integer j) for all values", got is not None and w is not None and got.width == w.width and got.term == w.term,
+                    info="kind=%s j=%d signed=%s copy=%s" % (kind, j, signed, type(cp).__name__))
